@@ -341,6 +341,99 @@ fn has_unrenderable(m: &[TableDef]) -> bool {
     })
 }
 
+// ------------------------------------------------------------------ the `pending constraints` family
+/// Evolutions (and hand-written plans) in which the pending set of build_plan_queries (builder.rs:30-58) matters:
+/// two or three tables with the same column names and IDENTICAL index / unique constraints (same optional name, same
+/// column list); one step adds a rebuilding constraint (CHECK / FOREIGN KEY) to one table and the shared index / unique to
+/// another; plus the same-table shape (AddColumn with an inline index + a rebuilding AddConstraint + the index's own
+/// AddConstraint).  Returns the model sets and, optionally, an explicit hand-ordered plan for the last step.
+fn pending_family(rng: &mut Rng) -> (Vec<Vec<TableDef>>, Option<Vec<MigrationAction>>) {
+    let mut names: Vec<&str> = vec!["a", "b", "item", "post", "tag", "user"];
+    rng.shuffle(&mut names);
+    let mut tn: Vec<String> = names.into_iter().take(rng.range(2, 3)).map(|s| s.to_string()).collect();
+    tn.sort();
+    let int = ColumnType::Simple(SimpleColumnType::Integer);
+    let mk = |name: &str| -> TableDef {
+        let mut t = TableDef { name: name.to_string(), description: None, columns: vec![], constraints: vec![] };
+        t.columns.push(gener::col("id", int.clone(), false));
+        for c in ["x", "y", "z", "p_id"] {
+            t.columns.push(gener::col(c, int.clone(), true));
+        }
+        t.constraints.push(TableConstraint::PrimaryKey { auto_increment: false, columns: vec!["id".into()] });
+        t
+    };
+    let mut parent = TableDef { name: "p".into(), description: None, columns: vec![gener::col("id", int.clone(), false)], constraints: vec![] };
+    parent.constraints.push(TableConstraint::PrimaryKey { auto_increment: false, columns: vec!["id".into()] });
+    // the shared constraints
+    let mut shared: Vec<TableConstraint> = vec![];
+    for _ in 0..rng.range(1, 2) {
+        let mut cols = vec!["x", "y", "z"];
+        rng.shuffle(&mut cols);
+        let cols: Vec<String> = cols.into_iter().take(rng.range(1, 2)).map(|s| s.to_string()).collect();
+        let name = if rng.chance(1, 2) { Some(rng.pick(&["k1", "k2", "main"]).to_string()) } else { None };
+        let k = if rng.chance(1, 2) { TableConstraint::Index { name, columns: cols } } else { TableConstraint::Unique { name, columns: cols } };
+        if !shared.iter().any(|s| s.columns() == k.columns() || (matches!((s, &k), (TableConstraint::Index { name: Some(a), .. }, TableConstraint::Index { name: Some(b), .. }) | (TableConstraint::Unique { name: Some(a), .. }, TableConstraint::Unique { name: Some(b), .. }) if a == b))) {
+            shared.push(k);
+        }
+    }
+    let rebuilder = |rng: &mut Rng| -> TableConstraint {
+        match rng.below(3) {
+            0 => TableConstraint::Check { name: rng.pick(&["ck1", "ck2"]).to_string(), expr: "id > 0".into() },
+            _ => TableConstraint::ForeignKey {
+                name: None,
+                columns: vec!["p_id".into()],
+                ref_table: "p".into(),
+                ref_columns: vec!["id".into()],
+                on_delete: if rng.chance(1, 2) { Some(rng.pick(&gener::ref_actions()).clone()) } else { None },
+                on_update: None,
+            },
+        }
+    };
+    let shape = rng.below(4);
+    let mut m1: Vec<TableDef> = vec![parent.clone()];
+    let mut m2: Vec<TableDef> = vec![parent.clone()];
+    let who_has = rng.below(tn.len()); // the table that already owns the shared constraints
+    let mut hand: Vec<MigrationAction> = vec![];
+    for (i, n) in tn.iter().enumerate() {
+        let mut t1 = mk(n);
+        let mut t2 = mk(n);
+        if shape == 3 {
+            // same-table shape: a new column with an inline index, a rebuilding constraint, the index's own AddConstraint
+            if i == who_has {
+                let mut c = gener::col("w", int.clone(), true);
+                c.index = Some(vespertide_core::StrOrBoolOrArray::Bool(true));
+                t2.columns.push(c);
+                t2.constraints.push(rebuilder(rng));
+                t1.constraints.extend(shared.clone());
+                t2.constraints.extend(shared.clone());
+            }
+        } else if i == who_has {
+            t1.constraints.extend(shared.clone());
+            t2.constraints.extend(shared.clone());
+            let k = rebuilder(rng);
+            t2.constraints.push(k.clone());
+            hand.insert(0, MigrationAction::AddConstraint { table: n.clone(), constraint: k });
+        } else {
+            // the others receive the shared constraints (all or one) in the second step; sometimes a rebuild of their own
+            let take = if shape == 0 { shared.len() } else { 1 };
+            for k in shared.iter().take(take) {
+                t2.constraints.push(k.clone());
+                hand.push(MigrationAction::AddConstraint { table: n.clone(), constraint: k.clone() });
+            }
+            if shape == 2 {
+                let k = rebuilder(rng);
+                t2.constraints.push(k.clone());
+                hand.push(MigrationAction::AddConstraint { table: n.clone(), constraint: k });
+            }
+        }
+        m1.push(t1);
+        m2.push(t2);
+    }
+    // half of the time the last step is the hand-ordered plan (rebuild first, whatever the table names), else the planner's order
+    let explicit = if shape != 3 && rng.chance(1, 2) { Some(hand) } else { None };
+    (vec![m1, m2], explicit)
+}
+
 struct Out {
     lines: Vec<Value>,
 }
@@ -410,6 +503,7 @@ fn main() {
     let steps: usize = arg(&args, "--steps", "4").parse().unwrap();
     let outdir = PathBuf::from(arg(&args, "--out", "out"));
     let corpus = arg(&args, "--corpus", "");
+    let n_pending: usize = arg(&args, "--pending", "0").parse().unwrap_or(0);
     let mut rng = Rng::new(seed);
     let mut out = Out { lines: vec![] };
     let mut hist = 0usize;
@@ -482,6 +576,26 @@ fn main() {
         }
         let hand = rng.chance(1, 2);
         run_history(&mut out, &mut rng, &mut evo, hist, if hand { "hand-extended" } else { "grown" }, hand);
+        hist += 1;
+    }
+    // the pending-constraints family
+    for _ in 0..n_pending {
+        let (mut evo, explicit) = pending_family(&mut rng);
+        match explicit {
+            None => run_history(&mut out, &mut rng, &mut evo, hist, "pending-family", false),
+            Some(acts) => {
+                let last = evo.pop();
+                run_history(&mut out, &mut rng, &mut evo, hist, "pending-family", false);
+                // replay what was emitted for this history and append the hand-ordered plan
+                let history: Vec<MigrationPlan> = out.lines.iter().filter(|l| l["hist"] == hist).filter_map(|l| serde_json::from_value(l["plan"].clone()).ok()).collect();
+                let hp = MigrationPlan { id: String::new(), comment: Some("hand".into()), created_at: None, version: history.len() as u32 + 1, actions: acts };
+                let mut h2 = history.clone();
+                h2.push(hp.clone());
+                if validate_migration_plan(&hp).is_ok() && schema_from_plans(&h2).is_ok() {
+                    out.lines.push(emit(&history, &hp, "pending-family", hist, history.len(), "hand", last.as_deref()));
+                }
+            }
+        }
         hist += 1;
     }
     std::fs::create_dir_all(&outdir).unwrap();
